@@ -827,6 +827,60 @@ CFG_UNQ = {"name": "src_unquote", "params": [("string", "list N")], "ret": "list
            "iterables": [iter_pairs1], "shapes": [shape_attr_probe, shape_append_alias]}
 
 
+# ---- _make_quote_map ----------------------------------------------------------------------------------------------
+def translate_make_quote_map(path):
+    """_make_quote_map has one fixed shape (a loop over the 256 byte values filling a dict under the keys chr(v) and
+    v); it is recognised statement by statement and rendered as the list of the 256 values in key order.  Also
+    checks that the four tables are built by it from the four *_SAFE sets."""
+    node = py2coq.get_function(path, "_make_quote_map")
+    body = [st for st in node.body if not (isinstance(st, ast.Expr) and isinstance(st.value, ast.Constant))]
+    try:
+        assert [a.arg for a in node.args.args] == ["safe_chars"] and len(body) == 3
+        init, loop, ret = body
+        assert ast.unparse(init) == "ret = {}" and ast.unparse(ret) == "return ret"
+        assert isinstance(loop, ast.For) and not loop.orelse
+        assert ast.unparse(loop.target) == "(i, v)" and ast.unparse(loop.iter) == "zip(range(256), range(256))"
+        c_assign, branch = loop.body
+        assert ast.unparse(c_assign) == "c = chr(v)"
+        assert isinstance(branch, ast.If) and ast.unparse(branch.test) == "c in safe_chars"
+        assert len(branch.body) == 1 and len(branch.orelse) == 1
+        yes, no = branch.body[0], branch.orelse[0]
+        for st in (yes, no):
+            assert isinstance(st, ast.Assign) and [ast.unparse(t) for t in st.targets] == ["ret[c]", "ret[v]"]
+        assert ast.unparse(yes.value) == "c"
+        fs = no.value
+        assert isinstance(fs, ast.JoinedStr) and len(fs.values) == 2
+        assert isinstance(fs.values[0], ast.Constant) and fs.values[0].value == "%"
+        fv = fs.values[1]
+        assert isinstance(fv, ast.FormattedValue) and ast.unparse(fv.value) == "i" and fv.conversion == -1
+        assert isinstance(fv.format_spec, ast.JoinedStr) and len(fv.format_spec.values) == 1 and \
+            fv.format_spec.values[0].value == "02X"
+    except (AssertionError, ValueError, AttributeError):
+        raise Unsupported("_make_quote_map changed shape")
+    tree = ast.parse(open(path).read())
+    want = {"_USERINFO_PART_QUOTE_MAP": "_USERINFO_SAFE", "_PATH_PART_QUOTE_MAP": "_PATH_SAFE",
+            "_QUERY_PART_QUOTE_MAP": "_QUERY_SAFE", "_FRAGMENT_QUOTE_MAP": "_FRAGMENT_SAFE"}
+    seen = {}
+    for st in tree.body:
+        if isinstance(st, ast.Assign) and len(st.targets) == 1 and isinstance(st.targets[0], ast.Name) and \
+                st.targets[0].id in want:
+            seen[st.targets[0].id] = ast.unparse(st.value)
+    for k, v in want.items():
+        if seen.get(k) != "_make_quote_map(%s)" % v:
+            raise Unsupported("%s is not built as _make_quote_map(%s)" % (k, v))
+    return ("(* _make_quote_map: for i, v in zip(range(256), range(256)): c = chr(v);\n"
+            "   ret[c] = ret[v] = (c if c in safe_chars else f'%{i:02X}') - the dict as the list of its 256 values *)\n"
+            "Definition src_make_quote_map (safe_chars : list N) : list (list N) :=\n"
+            "  let ret := [] in\n"
+            "  let ret :=\n"
+            "    fold_left (fun ret '(i, v) =>\n"
+            "        let c := v in\n"
+            "        let ret := if (memN c safe_chars) then ret ++ [[c]] else ret ++ [pct_encode i] in\n"
+            "        ret)\n"
+            "      (map (fun n => (n, n)) (map N.of_nat (seq 0 256))) ret in\n"
+            "  ret.\n")
+
+
 HEADER = """(* GENERATED on every run by harness/translators/c06_src.py from %s; do not edit. *)
 From Boltons Require Import Lib.Prelude Lib.PySrc Lib.C06_Text Model.C06_Model Lib.C06_PySrc.
 Open Scope N_scope.
@@ -841,6 +895,7 @@ Variable O : oracles.
 def generate(repo):
     path = os.path.join(repo, "boltons", "urlutils.py")
     out = [HEADER % "boltons/urlutils.py"]
+    out.append(translate_make_quote_map(path))
     for fn in ("quote_path_part", "quote_query_part", "quote_fragment_part", "quote_userinfo_part"):
         node = py2coq.get_function(path, fn)
         out.append(UT(cfg_quote(fn)).function(node))
